@@ -31,6 +31,14 @@ for mp in sorted(glob.glob(os.path.join(V, "seeded", "*", "meta.json"))):
             first = ln[:170]
             break
     res = "; ".join("%s %s: **%s**%s" % (c, v.get("tier", "quick"), v["result"], (" (" + v["keys"][0][:60] + ")") if v.get("keys") else "") for c, v in sorted(m.get("checks", {}).items()))
+    earlier = []
+    for h in m.get("history", []):
+        for hv in h.values():
+            for c, v in sorted(hv.items()):
+                if v.get("result") != m.get("checks", {}).get(c, {}).get("result"):
+                    earlier.append("%s first: %s" % (c, v.get("result")))
+    if earlier:
+        res += " — before the check was extended: " + ", ".join(sorted(set(earlier)))
     srows.append("| %s | %s | %s | %s/%s | %s |" % (name, first.replace("|", "/"), m.get("suite", "?"), m.get("demo_changed_exit"), m.get("demo_clean_exit"), res))
 seed = "\n".join(srows)
 p = os.path.join(V, "DESIGN.md")
